@@ -135,6 +135,7 @@ func c11(g *Gen) {
 			d := filepath.Join(src, gp.Path)
 			os.MkdirAll(d, 0755)
 			os.WriteFile(filepath.Join(d, "file.go"), []byte(pgWithComments(gp.Src)), 0644)
+			os.WriteFile(filepath.Join(d, "doc.go"), []byte("// +k8s:deepcopy-gen=package\n// +groupName="+gp.Name+".example.io\n\n// Package "+gp.Name+" is documented in its doc.go.\npackage "+gp.Name+"\n"), 0644)
 		}
 		req := map[string]bool{}
 		for _, gp := range prog {
